@@ -21,10 +21,10 @@ def c1(ctx):
 
 
 def c3(ctx):
-    serial.table_spec(ctx)
+    serial.table_spec(ctx, 'ssc')
     serial.writer_item_loop(ctx, serial.SSCCHART_SERIALIZE, notes_exempt=True)
     serial.writer_item_loop(ctx, serial.BASE_SERIALIZE, notes_exempt=False)
-    serial.reader_multi(ctx, 'ssc')
+    serial.reader_multi(ctx, 'ssc', raw_key_ok=True)
 
 
 def c4(ctx):
